@@ -79,7 +79,12 @@ def _strict_eligible(rs, key):
     which cancels and awaits siblings) and no list source fails."""
     pl = rs.planner
     # argument coercion errors are raised synchronously, whatever the delivery of the field
-    if any(path[0] == key for path in getattr(rs.result, "no_invoke", ())):
+    # (a position served by the default resolver is not invoked either, and is a synchronous
+    # failure only if it produced an error, i.e. null at a non-null position)
+    defaults = getattr(rs.result, "default_paths", ())
+    failed = {tuple(e.path) for e in rs.result.errors}
+    if any(path[0] == key and (path not in defaults or path in failed)
+           for path in getattr(rs.result, "no_invoke", ())):
         return False
     for path, fp in pl.fields.items():
         if path[0] == key and fp.fault and fp.delivery == "sync":
